@@ -385,6 +385,8 @@ var c08BulkPatches = []struct{ name, patch string }{
 	{"stmt-call", "@@\n@@\n-inner()\n+changed()\n"},
 	{"ident", "@@\n@@\n-inner\n+changed\n"},
 	{"func-dots", "@@\n@@\n func f() {\n   ...\n-  inner()\n+  changed()\n }\n"},
+	// EVERY element of the long list is rewritten, not one
+	{"every-call", "@@\nvar v expression\n@@\n-baz(v)\n+registry.Add(v)\n"},
 }
 
 var c08BulkSizes = []int{2000, 8000}
@@ -396,7 +398,30 @@ func c08Bulk(j int) (name string, patch, src []byte) {
 	j /= len(c08BulkSizes)
 	p := c08BulkPatches[j%len(c08BulkPatches)]
 	sh := c08BulkShapes[(j/len(c08BulkPatches))%len(c08BulkShapes)]
+	if p.name == "every-call" {
+		// rewriting every element costs quadratic time in today's gopatch (the
+		// changed regions are kept in a sorted interval set): sizes at which that
+		// stays far below the step budget; what is judged is the GROWTH between
+		// n/2 and n, see c08GrowthHalf
+		n /= 8
+	}
 	return fmt.Sprintf("%s x %d %s", p.name, n, sh.name), []byte(p.patch), []byte(sh.gen(n))
+}
+
+// c08GrowthHalf returns the target of half the size for a bulk case whose name
+// says "every-call x <n> <shape>", or nil.
+func c08GrowthHalf(name string) []byte {
+	var n int
+	var shape string
+	if _, err := fmt.Sscanf(name, "every-call x %d %s", &n, &shape); err != nil {
+		return nil
+	}
+	for _, sh := range c08BulkShapes {
+		if sh.name == shape {
+			return []byte(sh.gen(n / 2))
+		}
+	}
+	return nil
 }
 
 // ---- command-line forms ---------------------------------------------------------
